@@ -31,6 +31,7 @@ use rpki::repository::cert::Overclaim;
 use rpki::repository::resources::{
     Addr, AddressFamily, AddressRange, AsBlock, AsBlocks, AsBlocksBuilder, AsResources, AsResourcesBuilder, Asn, IpBlock,
     IpBlocks, IpBlocksBuilder, IpResources, IpResourcesBuilder, Ipv4Block, Ipv4Blocks, Ipv6Block, Ipv6Blocks, Prefix, ResourceSet,
+    ResourcesChoice,
 };
 use rpki::repository::roa::RoaIpAddress;
 use rpki_verif::engine::der;
@@ -981,6 +982,14 @@ fn choice_forms(ctx: &Ctx, dom: &Dom, have: &[Option<Val>]) {
                             _ => { let b = orig.encode_ref().to_captured(Mode::Der); Mode::Der.decode(b.as_slice(), |c| AsResources::take_from(c)).map_err(|e| format!("DER does not parse back: {e}"))? }
                         };
                         if got != orig { return Err(format!("reads back as \"{got}\", which is not == the original \"{orig}\"")) }
+                        // siblings: by-value encoder, the builder's inherit(), ResourcesChoice::map_blocks
+                        if orig.clone().encode().to_captured(Mode::Der).as_slice() != orig.encode_ref().to_captured(Mode::Der).as_slice() { return Err("encode(self) and encode_ref(&self) write different octets".into()) }
+                        let mut bld = AsResourcesBuilder::new(); bld.inherit();
+                        if let Some(m) = shape { if let Val::As(x) = have[m as usize].as_ref().unwrap() { bld.blocks(|b| for blk in x.iter() { b.push(blk) }) } }
+                        if bld.finalize() != orig { return Err("AsResourcesBuilder with inherit() builds another value".into()) }
+                        let choice: ResourcesChoice<AsBlocks> = match shape { None => ResourcesChoice::Inherit, Some(0) => ResourcesChoice::Missing, Some(m) => match have[m as usize].as_ref().unwrap() { Val::As(x) => ResourcesChoice::Blocks(x.clone()), _ => unreachable!() } };
+                        let mapped = choice.clone().map_blocks(|b| b.to_string());
+                        if mapped.to_string() != orig.to_string() || mapped.is_inherited() != orig.is_inherited() || mapped.is_present() != orig.is_present() || choice.clone().map_blocks(|b| b) != choice { return Err("ResourcesChoice::map_blocks changes the shape or the blocks".into()) }
                         if got.is_inherited() != shape.is_none() || got.is_present() != (shape != Some(0)) { return Err(format!("reads back with is_inherited={} is_present={}", got.is_inherited(), got.is_present())) }
                         match (got.to_blocks(), shape) { (Err(_), None) => {} (Ok(b), Some(m)) if same(&Val::As(b.clone()), &dom.canon[m as usize]) => {} _ => return Err("to_blocks differs after the trip".to_string()) }
                         for &p in &probes {
@@ -1006,12 +1015,32 @@ fn choice_forms(ctx: &Ctx, dom: &Dom, have: &[Option<Val>]) {
                         if !theirs.map(|t| t.is_inherited()).unwrap_or(false) { return Err("the other (inherited) family did not come back as inherited".to_string()) }
                         let got = mine.unwrap_or_else(IpResources::missing); // an absent family is what "missing" means
                         if got != orig { return Err("reads back as a value that is not == the original".to_string()) }
+                        // siblings: by-value encoder, the builder's inherit(), ResourcesChoice::map_blocks
+                        if orig.clone().encode().to_captured(Mode::Der).as_slice() != orig.encode_ref().to_captured(Mode::Der).as_slice() { return Err("encode(self) and encode_ref(&self) write different octets".into()) }
+                        let mut bld = IpResourcesBuilder::new(); bld.inherit();
+                        if let Some(m) = shape { if let Val::Ip(x) = have[m as usize].as_ref().unwrap() { bld.blocks(|b| for blk in x.iter() { b.push(blk) }) } }
+                        if bld.finalize() != orig { return Err("IpResourcesBuilder with inherit() builds another value".into()) }
+                        let choice: ResourcesChoice<IpBlocks> = match shape { None => ResourcesChoice::Inherit, Some(0) => ResourcesChoice::Missing, Some(m) => match have[m as usize].as_ref().unwrap() { Val::Ip(x) => ResourcesChoice::Blocks(x.clone()), _ => unreachable!() } };
+                        let mapped = choice.clone().map_blocks(|b| IpResources::blocks(b));
+                        let flat = match mapped { ResourcesChoice::Missing => IpResources::missing(), ResourcesChoice::Inherit => IpResources::inherit(), ResourcesChoice::Blocks(r) => r };
+                        if flat != orig || choice.clone().map_blocks(|b| b) != choice { return Err("ResourcesChoice::map_blocks changes the shape or the blocks".into()) }
                         if got.is_inherited() != shape.is_none() || got.is_present() != (shape != Some(0)) { return Err(format!("reads back with is_inherited={} is_present={}", got.is_inherited(), got.is_present())) }
                         match (got.to_blocks(), shape) { (Err(_), None) => {} (Ok(b), Some(m)) if same(&Val::Ip(b.clone()), &dom.canon[m as usize]) => {} _ => return Err("to_blocks differs after the trip".to_string()) }
                         for &p in &probes {
                             let iss = match have[p as usize].as_ref().unwrap() { Val::Ip(b) => b, _ => unreachable!() };
                             for trim in [false, true] {
-                                let g = iss.verify_issued(&got, if trim { Overclaim::Trim } else { Overclaim::Refuse }).ok();
+                                let g = match iss.verify_issued(&got, if trim { Overclaim::Trim } else { Overclaim::Refuse }) {
+                                    Ok(v) => Some(v),
+                                    Err(e) => {
+                                        // the refusal names the overclaimed part: it must print as the (already checked) difference does
+                                        if let Some(m) = shape { if let Some(Val::Ip(d)) = have[(m & !p) as usize].as_ref() {
+                                            let (w4, w6) = (format!("overclaimed IPv4 resources: {}", Ipv4Blocks::from(d.clone())), format!("overclaimed IPv6 resources: {}", Ipv6Blocks::from(d.clone())));
+                                            let (g4, g6) = (e.clone().v4().to_string(), e.v6().to_string());
+                                            if g4 != w4 || g6 != w6 { return Err(format!("issuer {} refuses with \"{}\" / \"{}\"; the difference prints as \"{w4}\" / \"{w6}\"", dom.show_mask(p), g4, g6)) }
+                                        } }
+                                        None
+                                    }
+                                };
                                 let ok = match (&g, issued(p, trim)) { (None, None) => true, (Some(v), Some(w)) => same(&Val::Ip(v.clone()), &dom.canon[w as usize]), _ => false };
                                 if !ok { return Err(format!("issuer {} verify_issued({}) answers {}", dom.show_mask(p), if trim { "trim" } else { "refuse" }, match g { None => "refused".to_string(), Some(v) => dom.show_repr(&repr_of(&Val::Ip(v))) })) }
                             }
@@ -1031,6 +1060,106 @@ fn choice_forms(ctx: &Ctx, dom: &Dom, have: &[Option<Val>]) {
     sp.set("shapes", json!(shapes.len())); sp.set("probe_issuers", json!(probes.len()));
     sp.sample_str(|| format!("{}: probe issuers {}", dom.name, probes.iter().take(4).map(|m| dom.show_mask(*m)).collect::<Vec<_>>().join(" ")));
     sp.done(true, &format!("{} shapes x forms x {} probe issuers x (refuse, trim, covered)", shapes.len(), probes.len()));
+}
+
+//------------ alternative constructors and mutators of single blocks ------------------------------------
+
+/// Every probe block through the family-specific text constructors and through set_min / set_max:
+/// each must give what the already checked sibling gives for the same input.
+fn api_variants(ctx: &Ctx, dom: &Dom) {
+    let sp = ctx.space(&format!("{}.block_variants", dom.name),
+        "every block between two probe values (and every inverted alphabet block, as text) through AddressRange / Prefix / Addr ::from_v4_str / from_v6_str / from_str, compared with IpBlock::from_v4_str / from_v6_str and with the values put in; every (block, probe value) through set_min and set_max: a new bound inside the block's other bound must give exactly the block constructed directly (also after collecting it), a bound beyond it is counted (documented panic); non-trivial = mutations that change the block");
+    let k = dom.kind;
+    let pts = probe_points(dom);
+    let mut blocks: Vec<(u128, u128)> = Vec::new();
+    for (i, &x) in pts.iter().enumerate() { for &y in &pts[i..] { blocks.push((x, y)) } }
+    let pfx = format!("C03.{}.variants", dom.name);
+    // text constructors (IP only; AS has just FromStr, covered by the construction layer)
+    if k.is_ip() {
+        let v4 = k == Kind::V4;
+        let mut texts: Vec<(u128, u128)> = blocks.clone();
+        texts.extend(dom.blocks.iter().filter(|b| b.inverted).map(|b| (b.lo, b.hi)));
+        for &(x, y) in &texts {
+            sp.eval();
+            let t = format!("{}-{}", dom.addr_txt(x), dom.addr_txt(y));
+            ctx.check(&format!("{pfx}.range_text"), || format!("text={t}"), || {
+                let sib = if v4 { IpBlock::from_v4_str(&t) } else { IpBlock::from_v6_str(&t) }.map(|b| (b.min(), b.max())).map_err(|_| ());
+                let fam = if v4 { AddressRange::from_v4_str(&t) } else { AddressRange::from_v6_str(&t) }.map(|r| (r.min(), r.max())).map_err(|_| ());
+                let gen_ = AddressRange::from_str(&t).map(|r| (r.min(), r.max())).map_err(|_| ());
+                if fam != sib || gen_ != sib { return Err(format!("AddressRange::from_v{}_str gives {fam:?}, AddressRange::from_str {gen_:?}, IpBlock::from_v{}_str {sib:?}", if v4 { 4 } else { 6 }, if v4 { 4 } else { 6 })) }
+                if x <= y && sib != Ok((addr(k.lib_min(x)), addr(k.lib_max(y)))) { return Err(format!("parsed bounds {sib:?}")) }
+                Ok(()) });
+            sp.outcome(if x <= y { "range-text-proper" } else { "range-text-inverted" });
+            if x > y { continue }
+            if let Some(l) = prefix_len(x, y, k.width()) {
+                sp.eval();
+                let t = format!("{}/{}", dom.addr_txt(x), l);
+                ctx.check(&format!("{pfx}.prefix_text"), || format!("text={t}"), || {
+                    let want = Prefix::new(addr(k.lib_min(x)), l);
+                    let fam = if v4 { Prefix::from_v4_str(&t) } else { Prefix::from_v6_str(&t) }.map_err(|e| e.to_string())?;
+                    let gen_ = Prefix::from_str(&t).map_err(|e| e.to_string())?;
+                    let sib = if v4 { IpBlock::from_v4_str(&t) } else { IpBlock::from_v6_str(&t) }.map_err(|e| e.to_string())?;
+                    if fam != want || gen_ != want || blk_ip(sib) != blk_ip(IpBlock::from(want)) { return Err(format!("Prefix::from_v*_str gives {:#x}/{}", fam.addr().to_bits(), fam.addr_len())) }
+                    let wrong = if v4 { Prefix::from_v6_str(&t) } else { Prefix::from_v4_str(&t) };
+                    if wrong.is_ok() { return Err("the other family's constructor accepts the text".into()) }
+                    Ok(()) });
+                sp.outcome("prefix-text");
+            }
+        }
+        for &x in &pts {
+            sp.eval();
+            let t = dom.addr_txt(x);
+            ctx.check(&format!("{pfx}.addr_text"), || format!("text={t}"), || {
+                let fam = if v4 { Addr::from_v4_str(&t) } else { Addr::from_v6_str(&t) }.map_err(|e| e.to_string())?;
+                let gen_ = Addr::from_str(&t).map_err(|e| e.to_string())?;
+                if fam != addr(k.lib_min(x)) || gen_ != fam { return Err(format!("Addr::from_v*_str gives {:#x}, from_str {:#x}", fam.to_bits(), gen_.to_bits())) }
+                if (if v4 { Addr::from_v6_str(&t) } else { Addr::from_v4_str(&t) }).is_ok() { return Err("the other family's constructor accepts the text".into()) }
+                Ok(()) });
+            sp.outcome("addr-text");
+        }
+    }
+    // mutators
+    let collected = |lo: u128, hi: u128| -> Repr { match k {
+        Kind::As => repr_of(&Val::As([AsBlock::from((asn(lo), asn(hi)))].into_iter().collect())),
+        _ => repr_of(&Val::Ip([IpBlock::from(AddressRange::new(addr(k.lib_min(lo)), addr(k.lib_max(hi))))].into_iter().collect())) } };
+    blocks.par_iter().for_each(|&(x, y)| {
+        let mut oc: BTreeMap<&'static str, u64> = BTreeMap::new();
+        let (mut evals, mut nontriv) = (0u64, 0u64);
+        for &m in &pts { for set_max in [false, true] {
+            evals += 1;
+            let (nx, ny) = if set_max { (x, m) } else { (m, y) };
+            let legal = nx <= ny;
+            if legal && (nx, ny) != (x, y) { nontriv += 1 }
+            let wit = || format!("block={} {}={}", dom.block_txt(x, y, false), if set_max { "set_max" } else { "set_min" }, dom.addr_txt(m));
+            // bounds and collected representation after the mutation
+            let r: Result<((u128, u128), Repr), String> = guard(|| match k {
+                Kind::As => {
+                    let mut b = AsBlock::from((asn(x), asn(y)));
+                    if set_max { b.set_max(asn(m)) } else { b.set_min(asn(m)) }
+                    ((b.min().into_u32() as u128, b.max().into_u32() as u128), repr_of(&Val::As([b].into_iter().collect())))
+                }
+                _ => {
+                    let mut r = AddressRange::new(addr(k.lib_min(x)), addr(k.lib_max(y)));
+                    if set_max { r.set_max(addr(k.lib_max(m))) } else { r.set_min(addr(k.lib_min(m))) }
+                    ((r.min().to_bits(), r.max().to_bits()), repr_of(&Val::Ip([IpBlock::from(r)].into_iter().collect())))
+                }
+            });
+            let oracle = format!("{pfx}.{}", if set_max { "set_max" } else { "set_min" });
+            match r {
+                Err(p) => { if legal { *oc.entry("legal-bound:panic").or_insert(0) += 1; ctx.fail(&oracle, wit(), format!("the new bound is not beyond the other bound, yet: {p}")) } else { *oc.entry("bound-beyond-other:panic").or_insert(0) += 1; } }
+                Ok((bounds, rep)) => {
+                    if !legal { *oc.entry("bound-beyond-other:accepted").or_insert(0) += 1; continue }
+                    *oc.entry("legal-bound:mutated").or_insert(0) += 1;
+                    let want = (k.lib_min(nx), k.lib_max(ny));
+                    if bounds != want || rep != collected(nx, ny) { ctx.fail(&oracle, wit(), format!("the mutated block is {:#x}-{:#x} and collects to {}; constructed directly it is {:#x}-{:#x} and collects to {}", bounds.0, bounds.1, dom.show_repr(&rep), want.0, want.1, dom.show_repr(&collected(nx, ny)))) }
+                }
+            }
+        } }
+        sp.evals(evals); sp.nontrivial(nontriv); sp.merge_outcomes(&oc);
+    });
+    sp.set("blocks", json!(blocks.len())); sp.set("probe_values", json!(pts.len()));
+    sp.sample_str(|| format!("{}: {} blocks x {} new bounds x (set_min, set_max)", dom.name, blocks.len(), pts.len()));
+    sp.done(true, &format!("all {} probe blocks x {} probe values x 2 mutators, plus all text constructors", blocks.len(), pts.len()));
 }
 
 //------------ BER-only spellings of the RFC 3779 bit strings ----------------------------------------
@@ -1421,6 +1550,23 @@ fn resource_set(ctx: &Ctx, pts: &[u128], pts6: &[u128], max_len: u32) {
             let x: ResourceSet = serde_json::from_str(&s).map_err(|e| format!("json {s} does not parse back: {e}"))?;
             if rs3.diff(&x, t).is_some() || &x != v { Err(format!("json {s} parses back as {x}")) } else { Ok(()) } });
     }
+    // accessors and conversions of every state: what they return must be what is in the set
+    let full = (((1u32 << na) - 1), ((1u32 << n4) - 1), ((1u32 << n6) - 1));
+    for &i in &order {
+        let v = have[i].as_ref().unwrap(); let t = rs3.unpack(i);
+        sp.eval();
+        ctx.check("C03.rs.accessors", || format!("set={}", rs3.show(t)), || {
+            if v.asn_opt().is_some() != !v.asn().is_empty() || v.asn_opt().map(|x| x == v.asn()).unwrap_or(true) == false { return Err("asn_opt disagrees with asn()".into()) }
+            if v.ipv4_opt().is_some() != !v.ipv4().is_empty() || v.ipv4_opt().map(|x| x == v.ipv4()).unwrap_or(true) == false { return Err("ipv4_opt disagrees with ipv4()".into()) }
+            if v.ipv6_opt().is_some() != !v.ipv6().is_empty() || v.ipv6_opt().map(|x| x == v.ipv6()).unwrap_or(true) == false { return Err("ipv6_opt disagrees with ipv6()".into()) }
+            if v.to_as_resources() != AsResources::blocks(v.asn().clone()) { return Err("to_as_resources differs from AsResources::blocks(asn)".into()) }
+            if v.to_ip_resources_v4() != IpResources::blocks((**v.ipv4()).clone()) { return Err("to_ip_resources_v4 differs from IpResources::blocks(ipv4)".into()) }
+            if v.to_ip_resources_v6() != IpResources::blocks((**v.ipv6()).clone()) { return Err("to_ip_resources_v6 differs from IpResources::blocks(ipv6)".into()) }
+            let all = ResourceSet::all();
+            if !all.contains(v) || (all == *v) != (t == full) || (v.contains(&all)) != (t == full) { return Err("ResourceSet::all() is not the set that contains everything".into()) }
+            if all != ResourceSet::new(AsBlocks::all(), Ipv4Blocks::all(), Ipv6Blocks::all()) { return Err("ResourceSet::all() differs from the set of the three all() collections".into()) }
+            Ok(()) });
+    }
     // textual round trip of every state (the three Display forms back through from_strs)
     for &i in &order {
         let v = have[i].as_ref().unwrap(); let t = rs3.unpack(i);
@@ -1573,6 +1719,7 @@ fn main() {
         let res = closure(&ctx, dom, seeds);
         queries(&ctx, dom, &res.have);
         choice_forms(&ctx, dom, &res.have);
+        api_variants(&ctx, dom);
         if dom.kind.is_ip() { ber_spellings(&ctx, dom) }
     }
     bit_strings(&ctx);
